@@ -17,6 +17,12 @@ GROUPS = {
         U("dagproto", "ExecutionCall", "sync"), U("dagproto", "ExecutionCall", "async"),
         U("dagproto", "PreCall"),
     ],
+    "digraph": [
+        U("digraph", "SimpleQuery", "leaf_nodes"), U("digraph", "SimpleQuery", "debug_nodes"), U("digraph", "SimpleQuery", "setup_nodes"),
+        U("digraph", "SimpleQuery", "single_node_successors"), U("digraph", "SimpleQuery", "multiple_nodes_successors"), U("digraph", "SimpleQuery", "ancestors_of_iter"),
+        U("digraph", "MinimalInducedSubgraph"), U("digraph", "MakeSubgraph"), U("digraph", "IncludeDebugNodes"), U("digraph", "ExtendGraphWithDebugNodes"),
+        U("digraph", "AssignCompoundPriority"),
+    ],
     "values": [
         U("values", "XnActiveInCall"), U("values", "UxnResult"), U("values", "UxnGetitem"), U("values", "ExtendResultsWithArgs"),
         U("values", "ToThreadInExecutor"), U("values", "SyncExecute"), U("values", "StrictDictSetitem"), U("values", "BiDictSetitem"),
